@@ -153,7 +153,7 @@ def run(ctx):
         if any(a == 1 and b != 1 for a, b in zip(sh, ss)) or len(sh) < len(ss):
             ctx.count('broadcast_needed')
         err = None
-        if asked_before(ctx, rng, lambda: pb.time_shift(z, arg), lambda: pb.time_shift(z, arg, crop=True), lambda: pb.time_shift(z, 0.5)):
+        if asked_before(ctx, rng, *rng.choice([[lambda: pb.time_shift(z, arg), lambda: pb.time_shift(z, arg, crop=True), lambda: pb.time_shift(z, 0.5)], [lambda: pb.time_shift(type(z).like(z, sample_rate=z.sample_rate * 2), arg)]])):
             inp['asked_before'] = True
         try:
             y = pb.time_shift(z, arg)
